@@ -32,12 +32,32 @@ def norm_callee(p):
 
 
 def features(crate, fn_path):
-    fns = [crate.fn(fn_path)] + crate.closures_of(fn_path)
-    if fns[0] is None:
+    root = crate.fn(fn_path)
+    if root is None:
         return None
-    codes = Counter()
+    # the function, its closures and the loop-free helpers it is split into (looked through transitively; the
+    # other members of the twin table and the scanners stay callees)
+    light = lex.light_fns(crate)
+    twin_members = {x for pair in TWINS for x in pair}
+    fns, seen, work = [], set(), [root]
+    while work:
+        f = work.pop()
+        if f.path in seen:
+            continue
+        seen.add(f.path)
+        fns.append(f)
+        fns.extend(crate.closures_of(f.path))
+        for _bi, t in f.calls():
+            c = t["callee"]
+            p = c.get("resolved") or c.get("path") or ""
+            g = crate.fn(p) if c.get("resolved_crate", c.get("crate")) == crate.name else None
+            if g is not None and p in light and p not in twin_members and p not in lex.WRAPPERS \
+                    and p.startswith("parse::Parser::<R>::") and not g.is_pub:
+                work.append(g)
+    helper_paths = seen - {root.path}
+    codes = set()
     consts = set()
-    callees = Counter()
+    callees = set()
     names = crate.variant_names("parse::error::ErrorCode") or []
     for f in fns:
         for b in f.blocks:
@@ -48,7 +68,7 @@ def features(crate, fn_path):
                     continue
                 rv = s["rv"]
                 if rv["k"] == "agg" and rv.get("adt") == "parse::error::ErrorCode":
-                    codes[rv.get("vname")] += 1
+                    codes.add(rv.get("vname"))
                 if rv["k"] == "bin" and rv["op"] in ("Eq", "Ne") and rv.get("aty") == "u8":
                     for o in (rv["a"], rv["b"]):
                         c = common.const_int(o)
@@ -72,9 +92,9 @@ def features(crate, fn_path):
                                                for i in range(0, tgt.arg_count + 1)) and "_meta" not in p \
                             and not p.endswith(("next_datum", "expect_datum")):
                         continue
-                    callees[norm_callee(p)] += 1
-                elif p.startswith(("cons::Cons::set_", "cons::Cons::cdr_mut", "value::Value::as_cons_mut")):
-                    callees[p] += 1
+                    if p in helper_paths:
+                        continue
+                    callees.add(norm_callee(p))
     return {"codes": codes, "consts": consts, "callees": callees}
 
 
@@ -84,8 +104,9 @@ def run(ctx):
     ctx.explanation = (
         "The datum API is a hand-made copy of the value API with span bookkeeping added. Agreement of the two cannot be "
         "decided as behaviour statically, but the copies must stay copies: for each twin pair the rule extracts from the "
-        "MIR the multiset of ErrorCode constructions, the set of byte constants compared or switched on, and the "
-        "multiset of parser-internal callees (location-only callees removed, *_meta/*_datum renamed) and requires them "
+        "MIR the set of ErrorCode constructions, the set of byte constants compared or switched on, and the "
+        "set of parser routines called (loop-free private helpers looked through, location-only callees removed, "
+        "*_meta/*_datum renamed) and requires them "
         "to be equal; the token -> Value variant maps of next_value and next_datum are extracted by abstract evaluation "
         "and compared; the close-delimiter comparison must use the terminator parameter in both. A change applied to "
         "one twin only is reported; a change applied to both is not (that is the behaviour's business).")
@@ -103,10 +124,7 @@ def run(ctx):
             if x == y:
                 r.ok("%s ~ %s: same %s (%d)" % (a.rsplit("::", 1)[1], b.rsplit("::", 1)[1], what, len(x)), lexpr.fn(a))
             else:
-                if what == "consts":
-                    d = "only in %s: %s; only in %s: %s" % (a, sorted(x - y), b, sorted(y - x))
-                else:
-                    d = "only in/more in %s: %s; only in/more in %s: %s" % (a, dict(x - y), b, dict(y - x))
+                d = "only in %s: %s; only in %s: %s" % (a, sorted(x - y), b, sorted(y - x))
                 r.violation(a, "twin-%s" % what,
                             "%s and its location-tracking twin %s differ in %s (%s): one copy was changed without the "
                             "other" % (a, b, {"codes": "the error codes they raise", "consts": "the byte constants they test",
